@@ -40,6 +40,9 @@ pub struct GenCfg {
     /// occasionally add several hundred records of one kind (more than 255) and
     /// one record linked to (almost) every term
     pub bulk_recs: bool,
+    /// restrict the graph shapes (index into the shape table of `realise`); used where the
+    /// library's path search is exponential in the number of alternative routes
+    pub shapes: Option<&'static [u8]>,
 }
 
 impl GenCfg {
@@ -56,6 +59,7 @@ impl GenCfg {
             dup_terms: false,
             border_ids: true,
             bulk_recs: false,
+            shapes: None,
         }
     }
     pub fn standard(mut self) -> Self {
@@ -79,6 +83,10 @@ impl GenCfg {
     }
     pub fn recs(mut self, n: usize) -> Self {
         self.max_recs = n;
+        self
+    }
+    pub fn shapes(mut self, s: &'static [u8]) -> Self {
+        self.shapes = Some(s);
         self
     }
     pub fn bulk(mut self) -> Self {
@@ -318,7 +326,11 @@ pub fn realise(raw: &RawFacts, cfg: &GenCfg) -> Facts {
         }
         let node = &raw.nodes[i];
         let mut ps: Vec<usize> = Vec::new();
-        match raw.shape {
+        let shape = match cfg.shapes {
+            Some(allowed) => allowed[raw.shape as usize % allowed.len()],
+            None => raw.shape,
+        };
+        match shape {
             // chain with occasional extra edge
             1 => {
                 ps.push(i - 1);
